@@ -874,7 +874,9 @@ func c15Mutants(seed string) []mutant {
 				repl(t, with, name, idx)
 			}
 		case "number":
-			for name, with := range map[string]string{"to-string": `"7"`, "to-bool": "false", "to-null": "null", "to-object": `{}`, "to-array": `[1]`} {
+			for name, with := range map[string]string{"to-string": `"7"`, "to-bool": "false", "to-null": "null", "to-object": `{}`, "to-array": `[1]`,
+				// well-formed literals outside the range of a float64, and extreme ones inside it
+				"to-overflow": "1e999", "to-negative-overflow": "-1e999", "to-big-exponent": "1E+400", "to-largest": "1.7e308", "to-tiny": "4e-320"} {
 				repl(t, with, name, idx)
 			}
 		case "bool":
